@@ -4,7 +4,7 @@
 EXTENDS Core, FsModel, FsPolicyOps
 
 (* ---- the commands as programs (model checking) -------------------------------- *)
-Op(kind, p, p2, d) == [kind |-> kind, p |-> p, p2 |-> p2, d |-> d]
+Op(kind, p, p2, d) == [kind |-> kind, p |-> p, p2 |-> p2, d |-> d, n |-> -1]
 CreateProgram == <<Op("open_append", "O", "", ""), Op("close", "O", "", ""), Op("remove", "O", "", ""),
                    Op("open_trunc", "O", "", ""), Op("write", "O", "", "New"), Op("close", "O", "", "")>>
 RenameProgram(targetExists) == IF targetExists THEN <<>> ELSE <<Op("rename", "M", "N", "")>>
@@ -15,7 +15,7 @@ Paths == {"M", "N", "O", "P1"}
 Init == /\ cmd \in ReadOnlyCmds \cup {"create", "rename"}
         /\ \E o \in {"Absent", "Other"}, n \in {"Absent", "Other"} :
               /\ fs0 = [c |-> [p \in Paths |-> CASE p = "M" -> "Old" [] p = "N" -> n [] p = "O" -> o [] OTHER -> "Other"],
-                        pend |-> [p \in Paths |-> NoPend]]
+                        pend |-> [p \in Paths |-> NoPend], sz |-> [p \in Paths |-> -1]]
               /\ prog = CASE cmd = "create" -> CreateProgram
                           [] cmd = "rename" -> RenameProgram(n # "Absent")
                           [] OTHER -> <<>>
